@@ -121,16 +121,29 @@ pub fn run(a: &Args) {
             chosen.push((pool[i].1.clone(), r));
         }
     }
+    // nesting right at the limits of the pull state machine and of the scanner's flow level (both interfaces must
+    // stop, or not stop, at the same place)
+    let first_deep = chosen.len();
+    for shape in ["seq", "qkey", "seqmap", "mixflow", "map"] {
+        for d in [255usize, 256, 999, 1000, 1001] {
+            let t = super::c11::shape_text(shape, d);
+            let r = run_str(&t);
+            if r.panic.is_none() {
+                chosen.push((t, r));
+            }
+        }
+    }
     let (mut calls, mut hists, mut pushes) = (0usize, 0usize, 0usize);
     let mut samples: Vec<Value> = vec![];
-    for (t, base) in &chosen {
+    for (ti, (t, base)) in chosen.iter().enumerate() {
         let mut items: Vec<Value> = base.evs.iter().map(item_ev).collect();
         if let Some(e) = &base.err {
             items.push(item_err(e));
         }
         let m = items.len();
         writeln!(w, "{}", json!({"k": "TEXT", "t": t, "base": items})).unwrap();
-        let hs = if m <= 12 { histories(m, &mut rng, thorough) } else { histories(m, &mut rng, false).into_iter().rev().take(6).collect() };
+        // (the deep family: one plain history; its subject is the push interface)
+        let hs = if ti >= first_deep { histories(m, &mut rng, false).into_iter().take(1).collect() } else if m <= 12 { histories(m, &mut rng, thorough) } else { histories(m, &mut rng, false).into_iter().rev().take(6).collect() };
         for (hi, h) in hs.iter().enumerate() {
             let mut recs = vec![];
             let r = std::panic::catch_unwind(std::panic::AssertUnwindSafe(|| {
